@@ -118,8 +118,31 @@ def huawei_batch_blocks():
     return f
 
 
+def cisco_vlan_blocks(name, model, catalyst):
+    """global VLAN database of IOS / NX-OS: `vlan <list>` lines plus `vlan N` blocks with a name.  A Catalyst shows a VLAN that has a
+    block only as that block (not in the list line); a Nexus lists it in the line as well.  The device's VLAN set is the union."""
+    def build(lines, blocks=()):
+        rows = [("vlan " + ln, od()) for ln in lines]
+        rows += [("vlan %d" % n, od([("name v%d" % n, od())])) for n in blocks]
+        return od(rows)
+
+    def lex(path):
+        c = path[0]
+        if len(path) > 1:
+            return None                      # the name inside a vlan block does not change the VLAN set
+        m = re.fullmatch(r"(no )?vlan ([\d,\- ]+)", c)
+        if m:
+            return {"op": "del" if m.group(1) else "add", "toks": lex_ranges(m.group(2))}
+        return {"op": "other", "toks": [], "text": c}
+    f = Family(name, model, build, lex, ",")
+    f.blocks = "catalyst" if catalyst else True
+    return f
+
+
 FAMILIES = [
     huawei_batch_blocks(),
+    cisco_vlan_blocks("catalyst vlan lists + vlan blocks", "Cisco Catalyst 2960", True),
+    cisco_vlan_blocks("nexus vlan lists + vlan blocks", "Cisco Nexus 9336", False),
     huawei_family("huawei trunk allow-pass (multi_all)", "port trunk allow-pass vlan", "interface if1", ("port link-type trunk",)),
     huawei_family("huawei hybrid tagged (multi_all)", "port hybrid tagged vlan", "interface if1", ("port link-type hybrid",)),
     huawei_family("huawei hybrid untagged (multi_all)", "port hybrid untagged vlan", "interface if1", ("port link-type hybrid",)),
@@ -166,7 +189,15 @@ def run(ctx):
             return lib.cisco_collapse_vlandb(S, not catalyst)
 
         def observe(tag, so, sn, lo, ln):
-            if getattr(fam, "blocks", False):
+            if getattr(fam, "blocks", False) == "catalyst":
+                # a VLAN with a block is NOT in the list lines (it moves between the two spellings from old to new)
+                bo = sorted(rnd.sample(sorted(so), rnd.randint(0, min(2, len(so))))) if so else []
+                bn = sorted(rnd.sample(sorted(sn), rnd.randint(0, min(2, len(sn))))) if sn else []
+                lo = [collapse(so - set(bo))] if so - set(bo) else []
+                ln = [collapse(sn - set(bn))] if sn - set(bn) else []
+                old, new = fam.build([fam.sep.join(x) for x in lo], bo), fam.build([fam.sep.join(x) for x in ln], bn)
+                lo, ln = lo + [[str(b)] for b in bo], ln + [[str(b)] for b in bn]
+            elif getattr(fam, "blocks", False):
                 # some VLANs of each side additionally have a `vlan N` block with options
                 bo = sorted(rnd.sample(sorted(so), rnd.randint(0, min(2, len(so))))) if so else []
                 bn = sorted(rnd.sample(sorted(sn), rnd.randint(0, min(2, len(sn))))) if sn else []
